@@ -62,6 +62,10 @@ SCENARIOS = {
     'restricted': dict(
         src='<dtml-var expr="o.p + _.str(a)"><dtml-in expr="seq" sort_expr="key"><dtml-var expr="x + y"></dtml-in>'
             '<dtml-if expr="a and o.p">T</dtml-if>', guarded=True),
+    # dtml-return travels as an exception through finally bodies and handlers of the render that raised it
+    'return': dict(
+        src='<dtml-try><dtml-in seq><dtml-if expr="x == 2"><dtml-try><dtml-return expr="(a, o.p, x + a)"><dtml-finally>'
+            '<dtml-var a></dtml-try></dtml-if></dtml-in><dtml-finally><dtml-call "seq.append(a)"><dtml-var w></dtml-try>'),
     'epfs': dict(
         src='%(in seq sort_expr="key")[%(x)s,%(in)]%(if a)[A%(else)[B%(if)]%(a)05d', epfs=True),
 }
